@@ -1491,6 +1491,42 @@ def s_option_and_then(eng, frame, st, args, fj, depth, site):
             yield from call_closure(eng, s2, args[1], [payload], depth, site)
 
 
+def s_bool_then_some(eng, frame, st, args, fj, depth, site):
+    # bool::then_some(c, v): the value is evaluated by the caller either way
+    for s2, b in eng.split_truth(st, _val(eng, st, args[0])):
+        yield s2, (some(args[1]) if b else NONE)
+
+
+def s_bool_then(eng, frame, st, args, fj, depth, site):
+    # bool::then(c, f): f runs only when c holds
+    for s2, b in eng.split_truth(st, _val(eng, st, args[0])):
+        if not b:
+            yield s2, NONE
+        else:
+            for s3, r in call_closure(eng, s2, args[1], [], depth, site):
+                yield s3, some(r)
+
+
+def s_entry_or_insert_with(eng, frame, st, args, fj, depth, site):
+    """Entry::or_insert_with(entry, f): an occupied entry yields the stored value and f does not run; a vacant one runs f once
+    and stores its result.  NOT a default summary: rules that want the closure followed pass it to their engine."""
+    e = args[0]
+    s1 = st.fork()
+    s1.cond.append(("variant", e, "Occupied", True))
+    yield s1, eng.opaque(s1, "Entry::Occupied::into_mut", [e])
+    s2 = st.fork()
+    s2.cond.append(("variant", e, "Vacant", True))
+    for s3, r in call_closure(eng, s2, args[1], [], depth, site):
+        s3.events.append(("call", "Entry::Vacant::insert", (e, r), site, False, None))
+        yield s3, eng.opaque(s3, "Entry::Vacant::insert", [e, r])
+
+
+ENTRY_SUMMARIES = {
+    "std::collections::btree_map::Entry::or_insert_with": s_entry_or_insert_with,
+    "std::collections::hash_map::Entry::or_insert_with": s_entry_or_insert_with,
+}
+
+
 def s_option_context(eng, frame, st, args, fj, depth, site):
     # anyhow::Context for Option<T>: None -> Err(msg), Some(x) -> Ok(x)
     RES = "std::result::Result"
@@ -1679,6 +1715,10 @@ DEFAULT_SUMMARIES = {
     "std::option::Option::cloned": s_option_copied,
     "std::option::Option::unwrap": s_option_unwrap,
     "std::option::Option::and_then": s_option_and_then,
+    "core::bool::<impl bool>::then_some": s_bool_then_some,
+    "core::bool::<impl bool>::then": s_bool_then,
+    "std::bool::<impl bool>::then_some": s_bool_then_some,
+    "std::bool::<impl bool>::then": s_bool_then,
     "anyhow::context::<impl anyhow::Context<T, E> for std::result::Result<T, E>>::context": s_result_context,
     "anyhow::context::<impl anyhow::Context<T, E> for std::result::Result<T, E>>::with_context": s_result_context,
     "anyhow::context::<impl anyhow::Context<T, std::convert::Infallible> for std::option::Option<T>>::context": s_option_context,
